@@ -150,6 +150,7 @@ theorem allIn_step (op : Op) (g : String) (s : Store) (ht : op.target = g) (hk :
     simp only [Op.target] at ht; subst ht
     simp only [Op.keepsGraphId, List.all_eq_true, beq_iff_eq] at hk
     exact allIn_appendGraph _ _ _ _ hk (allIn_delIfPresent _ _ s h)
+  | delAllGraphs => simp [Op.keepsGraphId] at hk
   | clone g0 g2 =>
     simp only [Op.target] at ht; subst ht
     simp only [step, cloneGraph]
@@ -219,7 +220,8 @@ theorem homed_step (op : Op) (d : DStore) (hk : op.keepsGraphId = true) (h : ∀
   have lifted : ∀ (o : Op), o.keepsGraphId = true → ∀ g', Homed (lift o.target (Store.step o) d).2 g' :=
     fun o ho => homed_put d _ _ h (allIn_step o _ _ rfl ho (h _))
   cases op with
-  | addGraph g ig => exact homed_addGraph d g ig h
+  | addGraph g ig => exact homed_addGraph d g ig.close h
+  | delAllGraphs => simp [Op.keepsGraphId] at hk
   | addGraphDirect g ig =>
     simp only [Op.keepsGraphId, List.all_eq_true, beq_iff_eq] at hk
     exact homed_put d g _ h (allIn_appendGraph g _ _ _ hk (allIn_empty g 1))
